@@ -308,10 +308,16 @@ pub mod time {
     }
 
     /// A wrapper around [`parse_duration`] that converts errors into [`ExecutionError`].
-    /// and only returns the duration, rather than returning the remaining input.
+    /// The whole input must be a duration: text left over after the last term is an error.
     fn _duration(i: &str) -> Result<chrono::Duration> {
-        let (_, duration) = crate::duration::parse_duration(i)
+        let (rest, duration) = crate::duration::parse_duration(i)
             .map_err(|e| ExecutionError::function_error("duration", e.to_string()))?;
+        if !rest.is_empty() {
+            return Err(ExecutionError::function_error(
+                "duration",
+                format!("unexpected text after the last term: {rest:?}"),
+            ));
+        }
         Ok(duration)
     }
 
